@@ -4,8 +4,10 @@ R(x, y) == [a |-> x, b |-> y]
 C12 == { <<>>, <<R(0,0)>>, <<R(1,0)>>, <<R(0,0), R(0,0)>>, <<R(0,1), R(1,0)>>, <<R(1,0), R(0,1)>>,
          <<R(1,1), R(0,0), R(1,1)>>, <<R(0,0), R(0,1), R(1,0)>>, <<R(1,0), R(0,1), R(0,0)>>,
          <<R(0,1), R(0,1), R(0,0)>>, <<R(1,1), R(1,0), R(0,1)>>, <<R(1,0), R(1,1), R(0,0), R(0,1)>> }
-C5 == { <<>>, <<R(1,0)>>, <<R(0,1), R(0,1), R(0,0)>>, <<R(1,0), R(0,1), R(0,0)>>, <<R(1,0), R(1,1), R(0,0), R(0,1)>> }
-C3 == { <<R(0,1), R(0,1), R(0,0)>>, <<R(1,0), R(0,1), R(0,0)>>, <<R(1,0), R(1,1), R(0,0), R(0,1)>> }
+C5 == { <<>>, <<R(1,0)>>, <<R(0,1), R(0,1), R(0,0)>>, <<R(1,2), R(2,1), R(1,0)>>, <<R(1,0), R(1,1), R(0,0), R(0,1)>> }
+\* the second content has three distinct values of b and a repeated a (an ORDER BY b can tell rows apart that
+\* a projection onto a merges - finding F23 needed exactly that)
+C3 == { <<R(0,1), R(0,1), R(0,0)>>, <<R(1,2), R(2,1), R(1,0)>>, <<R(1,0), R(1,1), R(0,0), R(0,1)>> }
 C1 == { <<R(1,0), R(1,1), R(0,0), R(0,1)>> }
 StartOn == TRUE
 FixOff == FALSE
